@@ -836,8 +836,29 @@ func Gen(seed int64, index int, o GenOpts) *Case {
 	mode := pick(4)
 	if o.Profile == "e2e" {
 		mode = 0 // paced in real time: DTS-merged
+		if (uint64(seed)*7+uint64(index)/3)%3 == 1 { // (index%3 selects the variant in C09)
+			mode = 4
+		}
 	}
 	switch mode {
+	case 4: // arrival order with audio that lags the video by 70-200 ms (a capture pipeline whose
+		// audio path is slower): around every key frame some audio with lower time stamps is
+		// written after it
+		c.Features["audio-lag"] = true
+		lag := 0.07 + float64((uint64(seed)*7+uint64(index))%14)/100
+		key := func(e event) float64 {
+			if !c.Tracks[e.track].Kind.IsVideo() {
+				return e.t + lag
+			}
+			return e.t
+		}
+		sort.SliceStable(events, func(i, j int) bool {
+			ki, kj := key(events[i]), key(events[j])
+			if ki != kj {
+				return ki < kj
+			}
+			return events[i].order < events[j].order
+		})
 	case 0, 1: // DTS-merged
 		sort.SliceStable(events, func(i, j int) bool {
 			if events[i].t != events[j].t {
